@@ -49,3 +49,10 @@ def custom(run, tier):
     run.absorb(summary)
     ok, nc, nm, mism, raw = vlib.run_driver("c10", cases)
     run.oblige("correspondence (race run): monitor accepts %d logs" % nc, ok and nm == 0, "\n".join(mism) or raw)
+
+
+MANIFEST = {
+    "text": "PARTIAL proof. Coq theorems over ALL runs of an executable LTS of Open / Close / react / connect loop / epoch / transport gate (70 actions; a 48-clause inductive invariant discharged by a verified unit-propagation/splitting procedure run by vm_compute): generations never overlap; Open on an open connection returns ErrAlreadyOpen with the whole state unchanged; Close is idempotent; in every state in which Close has returned there are 0 library goroutines (by class accounting), 0 sockets/listeners, no reconnect loop, State NotConnected, supervisor stopped, and from there only an Open call is enabled (no dial / listen / publish); a closed connection reopens to the state of a fresh Open (up to counters); the extracted monitor ok_C10 accepts every run. 'Close returns within the close timeout' is REFUTED by a witness (Close is not enabled while a blocking Open holds the lifecycle lock; known finding C10-close-blocked-by-open, reproduced on every run). Tied by e2e histories on harness-owned pipes (HSMS-SS and SECS-I, both roles): sequences and random concurrent histories of Open (blocking/background), Close, sends, UpdateConfigOptions against connects, drops, cuts, stalls, rejects, refusals and hangs; after every calm Close: no goroutine created by library code, Close() seen on every conn and listener, no later dial, latency bound, ErrAlreadyOpen exact, no panic; logs judged by the extracted monitor.",
+    "note": 'PARTIAL: goroutine leaks, blocking bounds and panics are runtime facts observed by the harness; joins are assumed to complete (the ErrCloseTimeout path that abandons stragglers is not modelled); reopen is proved as state equality after the setup steps, not as a bisimulation.',
+    "technique": 'Rocq/Coq proof (48-clause inductive invariant over an executable LTS, discharged by a verified SAT procedure) + extracted monitor over e2e histories on both transports + hygiene probes',
+}
